@@ -313,3 +313,49 @@ pub open spec fn batch_time_ok(b: Batch) -> bool {
     b.next_batch_action_time is Some ==> b.next_batch_action_time->Some_0 * 1_000_000_000 <= u64::MAX
 }
 } // verus!
+verus! {
+// ------------------------------------------------------------------ recovery (C07)
+pub open spec fn refundable(p: IBCTransfer) -> bool {
+    p.status == PacketLifecycleStatus::AckFailure || p.status == PacketLifecycleStatus::TimedOut
+}
+pub open spec fn recover_pred(receiver: Seq<char>) -> spec_fn(IBCTransfer) -> bool {
+    |p: IBCTransfer| p.receiver@ == receiver && refundable(p)
+}
+pub open spec fn seq_total(ps: Seq<IBCTransfer>) -> nat
+    decreases ps.len(),
+{
+    if ps.len() == 0 { 0 } else { seq_total(ps.drop_last()) + ps.last().amount.amount.0 as nat }
+}
+/// the in-flight map after removing the sequences of the first `n` packets
+pub open spec fn remove_all(m: SMap<u64, IBCTransfer>, ps: Seq<IBCTransfer>, n: int) -> SMap<u64, IBCTransfer>
+    decreases n,
+{
+    if n <= 0 { m } else { remove_all(m, ps, n - 1).remove(ps[n - 1].sequence) }
+}
+/// reachable-state facts about the in-flight table (DOM for C16; proved inductive in `world`)
+pub open spec fn inflight_wf(s: StoreView) -> bool {
+    forall|k: u64| #[trigger] s.inflight.dom().contains(k) ==> {
+        &&& s.inflight[k].sequence == k
+        &&& k < 0x8000_0000_0000_0000
+        &&& s.inflight[k].amount.amount.0 <= AMOUNT_MAX()
+    }
+}
+pub open spec fn is_max_key(m: SMap<u64, IBCTransfer>, k: u64) -> bool {
+    m.dom().contains(k) && forall|j: u64| #[trigger] m.dom().contains(j) ==> j <= k
+}
+pub open spec fn recover_receiver(c: Config, receiver: Option<String>) -> Seq<char> {
+    match receiver { Some(s) => s@, None => c.native_chain_config.staker_address.0@ }
+}
+/// the packets a recovery call re-sends, in order
+pub open spec fn recover_set(s0: StoreView, selected: Option<Vec<u64>>, rcv: Seq<char>, page: bool, ps: Seq<IBCTransfer>) -> bool {
+    match selected {
+        Some(ids) => {
+            &&& ps.len() == ids@.len()
+            &&& forall|i: int| 0 <= i < ids@.len() ==> s0.inflight.dom().contains(#[trigger] ids@[i]) && ps[i] == s0.inflight[ids@[i]] && ps[i].receiver@ == rcv
+        },
+        None => exists|all: Seq<StdResult<(u64, IBCTransfer)>>|
+            range_of(s0.inflight, None::<Bound<u64>>, None::<Bound<u64>>, Order::Ascending, all)
+            && ps == page_of_p(all, recover_pred(rcv), if page { Some(10u32) } else { None }),
+    }
+}
+} // verus!
